@@ -8,15 +8,17 @@ import (
 	"encoding/base64"
 	"io"
 	"net/http"
+	"sort"
 	"strings"
 
 	"golang.org/x/net/http2"
 	"golang.org/x/net/http2/hpack"
 )
 
-// The library as oracle: what this program's OWN framer / net/http calls return for the bytes of
-// one half.  The result is the abstract input of the Coq model (frames, message boundaries, error
-// classes); the model itself decides what the dissector does with them.
+// The library as oracle: what this program's OWN bufio / net/http / Framer calls return for the
+// bytes of one half, in the order in which a dissector that follows the HTTP/1 -> h2c -> HTTP/2
+// protocol switch asks for them.  The result is the input of the Coq model (coq/Http/HttpLoop.v):
+// the model decides what the dissector does with each result.
 
 func errClass(err error) string {
 	switch err {
@@ -30,125 +32,151 @@ func errClass(err error) string {
 	return "other"
 }
 
-// oracleFrames decodes an HTTP/2 frame sequence with an own Framer + HPACK decoder.
-func oracleFrames(r *bufio.Reader, limit int) []J {
-	var out []J
-	fr := http2.NewFramer(io.Discard, r)
-	fr.ReadMetaHeaders = hpack.NewDecoder(4096, nil)
-	for n := 0; n < 200000; n++ {
-		f, err := fr.ReadFrame()
-		if err != nil {
-			c := errClass(err)
-			out = append(out, J{"t": "E", "e": c})
-			if c != "other" {
-				break
-			}
-			if _, perr := r.Peek(1); perr != nil && perr != io.EOF {
-				break
-			}
-			continue
+func b64s(s string) string { return base64.StdEncoding.EncodeToString([]byte(s)) }
+
+func peekRep(r *bufio.Reader, n int) interface{} {
+	p, err := r.Peek(n)
+	if err != nil {
+		return nil
+	}
+	return base64.StdEncoding.EncodeToString(p)
+}
+
+func more(r *bufio.Reader) bool {
+	_, err := r.Peek(1)
+	return err == nil
+}
+
+func hdrRep(h http.Header) [][]interface{} {
+	keys := make([]string, 0, len(h))
+	for k := range h {
+		keys = append(keys, k)
+	}
+	sort.Strings(keys)
+	out := [][]interface{}{}
+	for _, k := range keys {
+		vs := []string{}
+		for _, v := range h[k] {
+			vs = append(vs, b64s(v))
 		}
-		switch f := f.(type) {
-		case *http2.MetaHeadersFrame:
-			fs := [][2]string{}
-			for _, hf := range f.Fields {
-				fs = append(fs, [2]string{b64s(hf.Name), b64s(hf.Value)})
-			}
-			out = append(out, J{"t": "H", "sid": f.StreamID, "f": fs, "es": f.StreamEnded()})
-		case *http2.DataFrame:
-			out = append(out, J{"t": "D", "sid": f.StreamID, "d": base64.StdEncoding.EncodeToString(f.Data()), "es": f.StreamEnded()})
-		default:
-			out = append(out, J{"t": "O", "sid": f.Header().StreamID})
-		}
+		out = append(out, []interface{}{b64s(k), vs})
 	}
 	return out
 }
 
-func b64s(s string) string { return base64.StdEncoding.EncodeToString([]byte(s)) }
-
-// oracleHalf: the sequence of library results one half of a connection yields: the preface peek,
-// HTTP/1 messages (own http.ReadRequest / ReadResponse calls, body drained), then frames.
-func oracleHalf(data []byte, isClient bool, limit int) J {
+func oracleHalf(data []byte, isClient bool) J {
 	r := bufio.NewReader(bytes.NewReader(data))
-	res := J{}
-	isH2 := false
-	if isClient {
-		p, err := r.Peek(len(http2.ClientPreface))
-		res["peek"] = errClass(err)
-		isH2 = err == nil && string(p) == http2.ClientPreface
-	} else {
-		p, err := r.Peek(9)
-		res["peek"] = errClass(err)
-		isH2 = err == nil && !bytes.HasPrefix(p, []byte("HTTP/1.")) && p[3] == 4
+	pre := len(http2.ClientPreface)
+	if !isClient {
+		pre = 9
 	}
-	res["h2"] = isH2
-	msgs := []J{}
-	for !isH2 {
-		var up bool
-		var err error
-		m := J{}
+	res := J{"first": peekRep(r, pre)}
+	isH2 := false
+	if p, err := r.Peek(pre); err == nil {
+		if isClient {
+			isH2 = string(p) == http2.ClientPreface
+		} else {
+			isH2 = !bytes.HasPrefix(p, []byte("HTTP/1.")) && p[3] == 4
+		}
+	}
+	if isH2 && isClient {
+		r.Discard(pre)
+	}
+	evs := []J{}
+	var fr *http2.Framer
+	newFramer := func() {
+		fr = http2.NewFramer(io.Discard, r)
+		fr.ReadMetaHeaders = hpack.NewDecoder(4096, nil)
+	}
+	if isH2 {
+		newFramer()
+	}
+	for n := 0; n < 300000; n++ {
+		if isH2 {
+			f, err := fr.ReadFrame()
+			if err != nil {
+				c := errClass(err)
+				m := more(r)
+				evs = append(evs, J{"t": "E", "e": c, "more": m})
+				if c != "other" || !m {
+					break
+				}
+				continue
+			}
+			ev := J{"t": "F"}
+			switch f := f.(type) {
+			case *http2.MetaHeadersFrame:
+				fs := [][2]string{}
+				for _, hf := range f.Fields {
+					fs = append(fs, [2]string{b64s(hf.Name), b64s(hf.Value)})
+				}
+				ev["k"], ev["sid"], ev["f"], ev["es"] = "H", f.StreamID, fs, f.StreamEnded()
+			case *http2.DataFrame:
+				ev["k"], ev["sid"], ev["d"], ev["es"] = "D", f.StreamID, base64.StdEncoding.EncodeToString(f.Data()), f.StreamEnded()
+			default:
+				ev["k"], ev["sid"] = "O", f.Header().StreamID
+			}
+			ev["more"] = more(r)
+			evs = append(evs, ev)
+			continue
+		}
+		var err, berr error
+		ev := J{"t": "M"}
+		up := false
 		if isClient {
 			var req *http.Request
 			req, err = http.ReadRequest(r)
 			if err == nil {
 				up = strings.Contains(strings.ToLower(req.Header.Get("Connection")), "upgrade") && strings.ToLower(req.Header.Get("Upgrade")) == "h2c"
-				_, berr := io.ReadAll(req.Body)
-				m = J{"t": "req", "up": up, "minor": req.ProtoMinor, "berr": errClass(berr)}
+				_, berr = io.ReadAll(req.Body)
+				ev["method"], ev["minor"], ev["hdr"] = b64s(req.Method), req.ProtoMinor, hdrRep(req.Header)
 			}
 		} else {
 			var resp *http.Response
 			resp, err = http.ReadResponse(r, nil)
 			if err == nil {
 				up = resp.StatusCode == 101 && strings.Contains(strings.ToLower(resp.Header.Get("Connection")), "upgrade") && strings.ToLower(resp.Header.Get("Upgrade")) == "h2c"
-				_, berr := io.ReadAll(resp.Body)
-				m = J{"t": "res", "up": up, "minor": resp.ProtoMinor, "berr": errClass(berr), "status": resp.StatusCode}
+				_, berr = io.ReadAll(resp.Body)
+				ev["status"], ev["minor"], ev["hdr"] = resp.StatusCode, resp.ProtoMinor, hdrRep(resp.Header)
 			}
 		}
 		if err != nil {
 			c := errClass(err)
-			msgs = append(msgs, J{"t": "E", "e": c})
-			if c != "other" {
-				break
-			}
-			if _, perr := r.Peek(1); perr != nil && perr != io.EOF {
-				break
-			}
-			if len(msgs) > 100000 {
+			m := more(r)
+			evs = append(evs, J{"t": "E", "e": c, "more": m})
+			if c != "other" || !m {
 				break
 			}
 			continue
 		}
-		msgs = append(msgs, m)
+		ev["berr"] = errClass(berr)
+		ev["more"] = more(r)
+		ev["next"] = peekRep(r, pre)
+		ev["up"] = up
+		evs = append(evs, ev)
+		bc := errClass(berr)
+		if bc == "eof" || bc == "ueof" || (bc == "other" && !ev["more"].(bool)) {
+			break
+		}
 		if up {
-			// what the two checks after the switch see
-			if isClient {
-				p, err := r.Peek(len(http2.ClientPreface))
-				m["peek2"] = errClass(err)
-				m["pre2"] = err == nil && string(p) == http2.ClientPreface
-				if err == nil && string(p) == http2.ClientPreface {
-					r.Discard(len(http2.ClientPreface))
-					isH2 = true
-				}
-			} else {
-				p, err := r.Peek(9)
-				m["peek2"] = errClass(err)
-				m["pre2"] = err == nil && !bytes.HasPrefix(p, []byte("HTTP/1.")) && p[3] == 4
-				if err == nil {
-					isH2 = m["pre2"].(bool)
-				}
-			}
-			if !isH2 && (isClient || m["peek2"] != "") {
-				res["stopped_after_upgrade"] = true
+			p, perr := r.Peek(pre)
+			if perr != nil {
 				break
 			}
+			if isClient {
+				if string(p) != http2.ClientPreface {
+					break
+				}
+				r.Discard(pre)
+				isH2 = true
+			} else {
+				isH2 = !bytes.HasPrefix(p, []byte("HTTP/1.")) && p[3] == 4
+			}
+			if isH2 {
+				newFramer()
+			}
 		}
 	}
-	res["msgs"] = msgs
-	if isH2 {
-		if isClient && len(msgs) == 0 {
-			r.Discard(len(http2.ClientPreface))
-		}
-		res["frames"] = oracleFrames(r, limit)
-	}
+	res["ev"] = evs
 	return res
 }
